@@ -87,7 +87,23 @@ def _wrap_c07(ctxmod):
         return "diff", a[:2], lv, "-"
 
     def mk_updrec(args, kwargs):
-        if kwargs or len(args) != 2 or not (_ok_dict(args[0]) and _ok_dict(args[1])):
+        if kwargs or not args or not _ok_dict(args[0]):
+            return None
+        if len(args) in (2, 3) and isinstance(args[1], str) and args[1] and all(args[1].split(".")):
+            # the string form: what str_to_dict(other, value) stands for is built here independently
+            parts = args[1].split(".")
+            if len(args) == 3:
+                cur = args[2]
+            elif len(parts) >= 2:
+                cur, parts = parts[-1], parts[:-1]
+            else:
+                return None
+            if isinstance(cur, dict) and not _ok_dict(cur):
+                return None
+            for k in reversed(parts):
+                cur = {k: cur}
+            return "updrec", [args[0], cur], -1, "-"
+        if len(args) != 2 or not _ok_dict(args[1]):
             return None
         return "updrec", list(args), -1, "-"
 
